@@ -220,6 +220,20 @@ def slotRun {π : Type} (sel : Selector π) (thr : XF) (itv : Nat) :
   | _, s, [] => s
   | count, s, i :: is => slotRun sel thr itv (count + 1) (slotStep sel thr itv count s i) is
 
+/-- root computation with a warm start (`reuse_preconditioner`, and `frequent_directions`, whose sketch IS the stored packed
+preconditioner): what the root returns at counter `count` may depend on the value stored in the slot -/
+abbrev WarmRoot (π : Type) := Nat → π → Inp π
+
+/-- one `update` call of a slot whose root computation reads the stored value -/
+def slotStepDep {π : Type} (sel : Selector π) (thr : XF) (itv count : Nat) (root : WarmRoot π) (s : Slot π) : Slot π :=
+  slotStep sel thr itv count s (root count s.precond)
+
+/-- `n` consecutive updates starting at counter `count` -/
+def slotRunDep {π : Type} (sel : Selector π) (thr : XF) (itv : Nat) (root : WarmRoot π) :
+    Nat → Slot π → Nat → Slot π
+  | _, s, 0 => s
+  | count, s, n + 1 => slotRunDep sel thr itv root (count + 1) (slotStepDep sel thr itv count root s) n
+
 /-- all slots of the optimizer state advance with the same counter: slot `k` receives the `k`-th root result -/
 def stateStep {π : Type} (sel : Selector π) (thr : XF) (itv count : Nat) (ss : List (Slot π)) (ins : List (Inp π)) :
     List (Slot π) :=
